@@ -13,7 +13,11 @@ use serde_json::json;
 use std::panic::{catch_unwind, AssertUnwindSafe};
 
 const FMT_ATOMS: [&str; 14] = ["%", "%%", "%1", "%2", "%0", "%10", "%...", ".", "..", "x(", ")", ", ", "%4294967296", "9"];
-const SPECIAL: [&str; 16] = [
+const SPECIAL: [&str; 20] = [
+    "print(\"\\1\u{0663}\")\n",
+    "local s = \"\\12\u{0969}\u{0663} \\x4\u{ff11} \\u{1\u{0663}}\"\n",
+    "print('\\9\u{0e53}\u{0e53}', \"\\255\u{ff15}\")\n",
+    "print(\"a\\\u{0663}b\", \"\\z\u{0663}\")\n",
     "",
     "-- only a comment é\n",
     "--[[ block\ncomment ]]",
@@ -80,7 +84,7 @@ fn mutate(r: &mut Rng, src: &str) -> String {
             1 => s = format!("-- é日本\n{s}"),
             2 => s = s.replacen('"', "\"é\\q", 1),
             3 => s = s.replacen(' ', " --[[😀]] ", 1),
-            _ => s = format!("{s}\nprint(\"\\é\", '\\\"', \"\\256\")"),
+            _ => s = format!("{s}\nprint(\"\\é\", '\\\"', \"\\256\", \"\\1\u{0663}\\2\u{ff12}\u{ff13}\")"),
         }
     }
     s
